@@ -185,7 +185,7 @@ def gen_random(rng, fam):
                     inbound[d] += 1
     for t in names:
         if inbound[t] >= 2 and rng.random() < fam["p_join"]:
-            tasks[t]["join"] = "all" if rng.random() < 0.6 else rng.randint(1, inbound[t])
+            tasks[t]["join"] = "all" if rng.random() < 0.6 else rng.randint(0, inbound[t])
         if rng.random() < 0.15:
             r = {"count": rng.choice([1, 2, "<% ctx().x %>"])}
             if rng.random() < 0.5:
@@ -240,7 +240,7 @@ def gen_diamonds(rng):
             link(b, m, rng.choice(WHENS))
         if rng.random() < 0.4 and njoin < 2:
             njoin += 1
-            tasks[m]["join"] = "all" if rng.random() < 0.5 else rng.randint(1, len(branch))
+            tasks[m]["join"] = "all" if rng.random() < 0.5 else rng.randint(0, len(branch))
         merges.append(m)
         cur = [m] if rng.random() < 0.7 else [m, rng.choice(branch)]
     # cross links and a shared tail
